@@ -72,7 +72,7 @@ class C04(PropBase):
     def phase2(self, rng, ctx, cases, impl_out, tier):
         self.base = {}
         for c, o in zip(cases, impl_out):
-            if c.op == 'obs' and isinstance(o, list) and o and isinstance(o[0], list):
+            if c.op == 'obs' and 'sid' in c.meta and isinstance(o, list) and o and isinstance(o[0], list):
                 self.base[c.meta['sid']] = o[0]
         return []
     def oracle(self, case, impl, ctx):
